@@ -1,4 +1,4 @@
-\* code as it is (FixAdded off): an added layer run through a per-file step is re-pushed from the consumed reader
+\* before the repair (FixAdded off): an added layer run through a per-file step is re-pushed from the consumed reader
 CONSTANTS
  Images <- ImagesData
  Options <- OptsAsisAdded
@@ -10,6 +10,7 @@ CONSTANTS
  FixAdded = FALSE
  FixTag = TRUE
  FixClose = TRUE
+ FixDesc = TRUE
  Fine = FALSE
 SPECIFICATION Spec
 INVARIANTS PostAligned
